@@ -48,6 +48,9 @@ op_kinds! {
     // Non-message operations (always enabled when they are next in the script).
     EndShutdown, EndTransportError, EndEof, EndDropTask, EndBrokerShutdownConn,
     Stall, TakeStatistics,
+    // Directed scenarios: wait until any service exists on the bus / until this actor was told that
+    // somebody subscribed to one of its events.
+    WaitService, WaitSubscribed,
 }
 
 impl OpKind {
@@ -175,6 +178,7 @@ pub struct Known {
     pub credit: BTreeMap<ChannelCookie, u32>,
     pub pending: HashMap<u32, Pending>,
     pub next_serial: u32,
+    pub subscribed_notifications: u32,
 }
 
 pub struct Resolver<'a> {
@@ -869,10 +873,41 @@ impl Resolver<'_> {
     }
 }
 
+/// Serial of the request a reply answers.
+pub fn reply_serial(msg: &Message) -> Option<u32> {
+    Some(match msg {
+        Message::CreateObjectReply(r) => r.serial,
+        Message::DestroyObjectReply(r) => r.serial,
+        Message::CreateServiceReply(r) => r.serial,
+        Message::DestroyServiceReply(r) => r.serial,
+        Message::SubscribeEventReply(r) => r.serial,
+        Message::QueryServiceVersionReply(r) => r.serial,
+        Message::CreateChannelReply(r) => r.serial,
+        Message::CloseChannelEndReply(r) => r.serial,
+        Message::ClaimChannelEndReply(r) => r.serial,
+        Message::SyncReply(r) => r.serial,
+        Message::CreateBusListenerReply(r) => r.serial,
+        Message::DestroyBusListenerReply(r) => r.serial,
+        Message::StartBusListenerReply(r) => r.serial,
+        Message::StopBusListenerReply(r) => r.serial,
+        Message::QueryIntrospectionReply(r) => r.serial,
+        Message::QueryServiceInfoReply(r) => r.serial,
+        Message::SubscribeServiceReply(r) => r.serial,
+        Message::SubscribeAllEventsReply(r) => r.serial,
+        Message::UnsubscribeAllEventsReply(r) => r.serial,
+        _ => return None,
+    })
+}
+
 impl Known {
     /// Updates the actor's knowledge from a message it received.
     pub fn observe(&mut self, msg: &Message, bb: &SharedBlackboard) {
         let mut bb = bb.borrow_mut();
+        if let Some(serial) = reply_serial(msg) {
+            if matches!(self.pending.get(&serial), Some(Pending::Other)) {
+                self.pending.remove(&serial);
+            }
+        }
         match msg {
             Message::CreateObjectReply(r) => {
                 self.pending.remove(&r.serial);
@@ -938,6 +973,9 @@ impl Known {
             }
             Message::ServiceDestroyed(m) => {
                 self.services.retain(|c| *c != m.service_cookie);
+            }
+            Message::SubscribeEvent(_) | Message::SubscribeAllEvents(_) => {
+                self.subscribed_notifications += 1;
             }
             _ => {}
         }
